@@ -431,6 +431,7 @@ class SimSimpleQueue:
         self.used = 0
         self.rlock = None
         self.wlock = None
+        self._reader = simmp._ReaderShim(w, lambda: bool(self.items), "sq%d" % self.sid)
 
     def __deepcopy__(self, memo):
         return self
